@@ -74,7 +74,7 @@ def mhcustom(logpfcn, x0, pparams, nsamples=10000, nburnout=5000, custom_step=No
         raise RuntimeError("custom_step option for mhcustom must be callable")
 
     x, dtype, device = _mhcustom_sample(logpfcn, x0, pparams, nburnout, custom_step, False)
-    xsamples = _mhcustom_sample(logpfcn, x0, pparams, nburnout, custom_step, True)
+    xsamples = _mhcustom_sample(logpfcn, x, pparams, nsamples, custom_step, True)
     wsamples = torch.zeros((xsamples.shape[0],), dtype=dtype, device=device) + (1. / xsamples.shape[0])
     return xsamples, wsamples
 
